@@ -66,7 +66,7 @@ JEval == /\ E.e = "JEval" /\ Job(E) \notin seen /\ ~returned
          /\ seen' = seen \cup {Job(E)}
          /\ UNCHANGED <<started, stepOf, ended, inUse, returned, owner, merged, inside, held>> /\ Step1
 JEnter == /\ E.e = "JEnter" /\ ~returned
-          /\ (E.j \notin DOMAIN inside \/ inside[E.j] = "")        \* nobody else is updating column j
+          /\ (IF E.j \in DOMAIN inside THEN inside[E.j] = "" ELSE TRUE)   \* nobody else is updating column j
           /\ inside' = Ext(inside, E.j, E.a)
           /\ UNCHANGED <<started, stepOf, ended, inUse, returned, owner, seen, merged, held>> /\ Step1
 JLeave == /\ E.e = "JLeave" /\ E.j \in DOMAIN inside /\ inside[E.j] = E.a /\ ~returned
@@ -91,12 +91,15 @@ PPut == /\ E.e = "put" /\ <<E.kind, E.buf>> \in held
 (* ---------------------------- run boundaries -------------------------- *)
 \* the result of a call must be the one seen for the same input in every other run
 \* (other GOMAXPROCS, other schedule, serial reference): bit-identical tokens
-SigOK == Run.input = "" \/ Run.input \notin DOMAIN sig \/ sig[Run.input] = Run.sig
+SigOK == IF Run.input = "" THEN TRUE
+         ELSE IF Run.input \notin DOMAIN sig THEN TRUE
+         ELSE sig[Run.input] = Run.sig
 EndRun == /\ l = Len(Run.ev) + 1
           /\ (Run.kind \in {"gemm", "quad", "jac"} => returned)
           /\ (Run.kind = "pool" => held = {})            \* every workspace went back
           /\ Run.leaked = 0                              \* no goroutine left behind
           /\ Run.calls = Run.expcalls                    \* user function called the documented number of times
+          /\ Run.ok = 1                                  \* result = serial answer (bit-identical / to rounding, as recorded)
           /\ SigOK
           /\ sig' = IF Run.input = "" THEN sig ELSE Ext(sig, Run.input, Run.sig)
           /\ r' = r + 1 /\ l' = 1 /\ Fresh
@@ -104,6 +107,7 @@ EndRun == /\ l = Len(Run.ev) + 1
 
 TraceInit == /\ r = 1 /\ l = 1 /\ started = {} /\ stepOf = <<>> /\ ended = {} /\ inUse = 0 /\ returned = FALSE
              /\ owner = <<>> /\ seen = {} /\ merged = {} /\ inside = <<>> /\ held = {} /\ sig = <<>>
+             /\ TLCSet(1, 0) /\ TLCSet(2, 0) /\ TLCSet(3, "start")
 TraceNext == /\ r <= Len(TraceLog)
              /\ IF l <= Len(Run.ev)
                 THEN GStart \/ GStep \/ GEnd \/ GReturn \/ QEval \/ QMerge \/ QReturn
@@ -111,9 +115,13 @@ TraceNext == /\ r <= Len(TraceLog)
                 ELSE EndRun
 TraceSpec == TraceInit /\ [][TraceNext]_vars
 
-Accepted == IF r = Len(TraceLog) + 1 THEN TRUE
-            ELSE /\ PrintT("TRACE-REJECTED at event " \o ToString(l) \o " of run " \o ToString(r) \o " ("
-                           \o Run.kind \o " " \o Run.name \o "): "
-                           \o (IF l <= Len(Run.ev) THEN ToString(E) ELSE "end-of-run conditions (returned/leaked/calls/result signature)"))
-                 /\ FALSE
+\* progress register (state variables are not visible in a POSTCONDITION)
+Progress == IF r = Len(TraceLog) + 1 THEN TLCSet(2, 1)
+            ELSE LET n == r * 1000000 + l IN
+                 IF n > TLCGet(1)
+                 THEN TLCSet(1, n) /\ TLCSet(3, "event " \o ToString(l) \o " of run " \o ToString(r) \o " (" \o Run.kind \o " " \o Run.name \o "): "
+                           \o (IF l <= Len(Run.ev) THEN ToString(E) ELSE "end-of-run conditions (returned / leaked / calls / ok / result signature)"))
+                 ELSE TRUE
+Accepted == IF TLCGet(2) = 1 THEN TRUE
+            ELSE PrintT("TRACE-REJECTED at " \o TLCGet(3)) /\ FALSE
 =============================================================================
